@@ -220,6 +220,7 @@ def run(ctx):
                    f'known by its alias, an un-aliased one by the suffixes of its name; a member never takes over the qualifier of another member (a condition on the '
                    f'model would be pushed into the table fetch and the model would lose its argument)', file=PJ, line=gjs.lineno,
                    witness='select * from mindsdb.sales join int1.sales s on ... where sales.horizon = 7')
+    check_partition_stack(ctx, fn)
     from .C08 import check_condition_scope
     check_condition_scope(ctx, fn, 'C14.attribution')
     # ---- ... and the scope survives plan_join_tables: a column written with the full name of its table is still that table's after the planner has normalised the
@@ -293,6 +294,53 @@ def run(ctx):
     ctx.setcount('truth_table_rows', rows)
     ctx.floor('truth_table_rows', 400)
     ctx.floor('c08_obligations', 60)
+
+
+def check_partition_stack(ctx, fn):
+    """A model with USING partition_size opens a partition (MapReduceStep) whose inner steps stay OUT of the plan; the step stack then holds the partition's last inner
+    step.  When the next member of the join is a table / sub-select the partition is complete: afterwards the stack must hold the partition itself (in the place
+    of its inner step) and, above it, the step of the new member - so that the next join joins the model's output with the new table.  process_table /
+    process_subselect interpreted with the real add_plan_step / close_partition on that state."""
+    n = 0
+    for meth in ('process_table', 'process_subselect'):
+        pt = fn.get(meth)
+        if pt is None:
+            continue
+        inner = Obj('JoinStep', step_num='1_1', result=Obj('Result'))
+        partition = Obj('MapReduceStep', step=[inner], step_num=1, result=Obj('Result'))
+        added = []
+        planner = Obj('QueryPlanner', default_namespace='mindsdb', plan=Obj('QueryPlan', steps=[], add_step=lambda st: (added.append(st), st)[1]))
+        fetch = Obj('FetchDataframeStep', result=Obj('Result'))
+        stubs = base_stubs()
+        stubs['self.get_filters_from_join_conditions'] = lambda it, item: []
+        stubs['self.planner.get_integration_select_step'] = lambda it, s_: fetch
+        stubs['self.planner.plan_select'] = lambda it, s_, *a, **k: fetch
+        stubs['self.planner.plan.add_step'] = lambda it, st: (added.append(st), st)[1]
+        stubs['SubSelectStep'] = lambda it, *a, **k: Obj('SubSelectStep', result=Obj('Result'))
+        stubs['copy.deepcopy'] = lambda it, x: x.clone() if isinstance(x, Obj) else x
+        item = Obj('TableInfo', integration='int2', table=Obj('Identifier', parts=['u'], alias=Obj('Identifier', parts=['b'], alias=None)), aliases=[('b',)], conditions=[],
+                   sub_select=Obj('Select', from_table=Obj('Identifier', parts=['x'], alias=None), alias=None, parentheses=True), predictor_info=None, join_condition=None,
+                   join_type='join', index=2)
+        self_ = new_pjt(planner=planner, query_context={'binary_ops': [], 'where_conjuncts': 0, 'use_limit': False, 'row_dict': {}}, tables_fetch_step={},
+                        step_stack=[inner], partition=partition, tables_idx={}, tables=[item])
+        q = select_ctor(None, targets=[Obj('Star')], from_table=Obj('Join'))
+        it = interp_for(stubs)
+        try:
+            it.call_function(pt, [self_, item, q][:len(pt.args.args)], {}, Env())
+        except Raised as r:
+            ctx.ob('C14.partition-stack', meth, False, f'{meth} raises {r.exc_name} when a partition is open', file=PJ, line=pt.lineno)
+            continue
+        n += 1
+        stack = self_.attrs.get('step_stack')
+        ok = isinstance(stack, list) and len(stack) == 2 and stack[0] is partition and stack[1] is not partition and stack[1] is not inner \
+            and self_.attrs.get('partition') is None
+        ctx.ob('C14.partition-stack', meth, ok,
+               f'{meth} with an open partition leaves the step stack {[getattr(x, "kind", x) for x in (stack or [])]} (partition '
+               f'{"closed" if self_.attrs.get("partition") is None else "still open"}), expected [MapReduceStep, <step of the new member>]: the next join must take the '
+               f'output of the partition (all batches of the model) as its left side, not an inner step of the partition', file=PJ, line=pt.lineno,
+               witness='select * from int1.t a join proj.model m using partition_size=100 join int2.u b on ...')
+    ctx.setcount('partition_stack_rows', n)
+    ctx.floor('partition_stack_rows', 2)
 
 
 def _run_pp(ctx, pp, item, query_in, fn, stack=None):
